@@ -9,19 +9,6 @@ func H_C17_sizeText(n int) {
 	pre := Size(vU64("pre"))
 	v := pre
 	err := v.UnmarshalText(in)
-	// UnmarshalText is the parser under the text part of DefaultRule: same verdict, the parsed value is stored
-	// whatever the receiver held, a refusal wraps the parser's error
-	pv, perr := DefaultParser(in, DefaultRule&ruleUnmarshalTextMask)
-	vAssert("unmarshal-agrees-with-parser", (err == nil) == (perr == nil))
-	if err == nil {
-		vAssert("successful-unmarshal-stores-the-parsed-value", v == pv)
-	} else {
-		w, wraps := err.(interface{ Unwrap() error })
-		vAssert("unmarshal-error-wraps-the-parser-error", wraps && w.Unwrap() != nil)
-		for _, sentinel := range []error{ErrInputTooLong, ErrUnitDisabled} {
-			vAssert("same-sentinels-as-the-parser", errorsIs(err, sentinel) == errorsIs(perr, sentinel))
-		}
-	}
 	vReach("ok", err == nil)
 	vReach("failed", err != nil)
 	if err != nil {
@@ -32,4 +19,27 @@ func H_C17_sizeText(n int) {
 	bv, berr := DefaultParser(in, r)
 	sv, serr := DefaultParser(string(in), r)
 	vAssert("string-bytes-same-value", bv == sv && (berr == nil) == (serr == nil))
+}
+
+// UnmarshalText is the parser under the text part of DefaultRule: same verdict, the parsed value is stored whatever
+// the receiver held, a refusal wraps the parser's error (a harness of its own: the size parser is the heaviest)
+//
+//verif:harness C17 quick n=0..3
+//verif:harness C17 thorough n=4..4
+func H_C17_sizeUnmarshal(n int) {
+	vMergeOutcomes()
+	in := vBytes("in", n)
+	v := Size(vU64("pre"))
+	err := v.UnmarshalText(in)
+	pv, perr := DefaultParser(in, DefaultRule&ruleUnmarshalTextMask)
+	vAssert("unmarshal-agrees-with-parser", (err == nil) == (perr == nil))
+	if err == nil {
+		vAssert("successful-unmarshal-stores-the-parsed-value", v == pv)
+	} else {
+		w, wraps := err.(interface{ Unwrap() error })
+		vAssert("unmarshal-error-wraps-the-parser-error", wraps && w.Unwrap() != nil)
+		vAssert("same-sentinels-as-the-parser", errorsIs(err, ErrInputTooLong) == errorsIs(perr, ErrInputTooLong) && errorsIs(err, ErrUnitDisabled) == errorsIs(perr, ErrUnitDisabled))
+	}
+	vReach("ok", err == nil)
+	vReach("failed", err != nil)
 }
